@@ -114,6 +114,10 @@ def _parse_string(s):
             s_frac = s_count[-n:] + s_frac
             s_count = s_count[:-n]
             exponent += n
+            # Move any remaining decimal places exactly, by padding with zeros
+            # (multiplying by the inexact 10 ** -k breaks the check below).
+            s_frac = "0" * -exponent + s_frac
+            exponent = 0
         elif exponent > 0:
             n = min(len(s_frac), exponent)
             s_count = s_count + s_frac[:n]
